@@ -43,11 +43,12 @@ def make_spec(**kw):
 def real_cfg(spec):
     from gunicorn.config import Config
     cfg = Config()
+    salt = repr(sorted((k, repr(v)) for k, v in spec.items()))
     for k, v in spec.items():
         if k in ("forwarded_allow_ips", "proxy_allow_ips", "forwarder_headers"):
             cfg.set(k, ",".join(v))
         else:
-            cfg.set(k, v)
+            cfg.set(k, vlib.respell_setting(k, v, salt))
     return cfg
 
 
